@@ -104,7 +104,8 @@ pub open spec fn step_queue(c: QCtx, a: JobQueueCore, b: JobQueueCore) -> QCtx {
     let qa = a.queue@; let qb = b.queue@;
     if qb =~= qa { c }
     else if c.holds && c.current is Some && is_push_front(qa, qb, c.current->0) { QCtx { current: None, ..c } }
-    else if is_append(qa, qb) { c }
+    // putting the job in hand back anywhere but at the front reorders it behind later operations
+    else if is_append(qa, qb) { if c.holds && c.current == Some(qb.last()) { QCtx { v_order: false, current: None, ..c } } else { c } }
     else if c.holds && c.current is None && active(a.state) && is_pop(qa, qb) { QCtx { current: Some(qa[0]), ..c } }
     else if qb.len() == qa.len() || qb.len() == qa.len() + 1 { QCtx { v_order: false, ..c } }
     else { QCtx { v_order: false, v_conserve: false, ..c } }
